@@ -232,10 +232,16 @@ def r5_file_reads_are_positioned(cx):
                         good = good or (("param", off) in o)
                     else:
                         good = good or (("param", 2) in o and any(x[0] == "call" and call_is(b.term(x[1]), r"Range::<.*>::begin$") for x in o))
-                # same lock guard: a lock acquisition dominates both
-                lk = [i for i, t in b.calls(r"Mutex::<.*>::lock$") if b.dominates(i, ri)]
-                ok = ok and good and bool(lk)
-        cx.ob("R5", "R5/FileSource::%s" % m, ok, f, "FileSource::%s seeks to SeekFrom::Start(requested offset) under the lock on every path before it reads the file" % m)
+                # same lock guard: the seek and the read are applied to the guard obtained by ONE lock() call
+                lk = [i for i, t in b.calls(r"Mutex::<.*>::lock$", r"FileSource as std::ops::Deref>::deref$") if b.dominates(i, ri)]
+                locks_r = {x[1] for x in b.origins(rt["args"][0]) if x[0] == "call" and call_is(b.term(x[1]), r"Mutex::<.*>::lock$")}
+                same_guard = False
+                for si, stt in doms:
+                    locks_s = {x[1] for x in b.origins(stt["args"][0]) if x[0] == "call" and call_is(b.term(x[1]), r"Mutex::<.*>::lock$")}
+                    if locks_s and locks_s == locks_r and len(locks_r) == 1:
+                        same_guard = True
+                ok = ok and good and bool(lk) and same_guard
+        cx.ob("R5", "R5/FileSource::%s" % m, ok, f, "FileSource::%s seeks to SeekFrom::Start(requested offset) and reads through the guard of one single lock() (one critical section) on every path" % m)
     g = F.one(impl_self="bases::io::file::FileSource", item="get_slice", trait="Source", closure=False)
     gb = F.body(g)
     cx.ob("R5", "R5/FileSource::get_slice", len(gb.calls(r"FileSource as .*Source>::read_exact$")) == 1 and not gb.calls(r"Read>::read$"), g, "FileSource::get_slice goes through its own read_exact(region.begin(), ..)")
